@@ -12,7 +12,7 @@
 EXTENDS Integers, Sequences, FiniteSets
 
 Names == {"x", "z", "I", "q"}      \* "q" stands for a column whose name needs quoting (`x y`)
-InTransforms(n) == n = "I"
+InTransforms(n) == n \in {"I", "np"}      \* ("np": the numpy module, read by the factors that call one of its functions)
 \* pattern: [data : SUBSET Names (in column order x, z, I), context : SUBSET Names]
 Layer(pat, n) == IF n \in pat.data THEN "data" ELSE IF n \in pat.context THEN "context" ELSE IF InTransforms(n) THEN "transforms" ELSE "MISSING"
 
@@ -45,15 +45,23 @@ fII == F("I(x) + I(z)", "python", <<Read("I", "callable"), Read("x", "value"), R
 \* are not symmetric in the two names (a difference), so that one name's value standing in for the other is observable.
 fqr == F("`x y` - `x-y`", "python", <<Read("q", "value"), Read("r", "value")>>)
 fIrq == F("I(`x-y` - `x y`)", "python", <<Read("I", "callable"), Read("r", "value"), Read("q", "value")>>)
+\* Calls that receive names BY KEYWORD: the value of a keyword argument is read like a positional one (the keyword itself names a
+\* parameter of the callee and is no variable).  A positional and a keyword name; only keyword names, one of them quoted, nested
+\* inside a second call.  np.clip(a, a_min=b, a_max=None) is the elementwise maximum of a and b.
+fkw == F("np.clip(x, a_min=z, a_max=None)", "python", <<Read("np", "callable"), Read("x", "value"), Read("z", "value")>>)
+fIkw == F("I(np.clip(a=`x y`, a_min=x, a_max=None))", "python", <<Read("I", "callable"), Read("np", "callable"), Read("q", "value"), Read("x", "value")>>)
+Max3(a, b) == [i \in 1..3 |-> IF a[i] >= b[i] THEN a[i] ELSE b[i]]
 \* the names such a pattern ranges over (the family of the formulas that read "r")
 CollidingNames == {"q", "r"}
 \* formulas: sequences of terms, a term = sequence of factors (no intercept: 0 + ...)
 Formulas == << <<<<fx>>>>, <<<<fx>>, <<fz>>>>, <<<<fIx>>>>, <<<<fsum>>>>, <<<<fx>>, <<fz, fx>>>>, <<<<fIx>>, <<fz>>>>, <<<<fq>>, <<fq, fx>>>>, <<<<fI>>, <<fx>>>>,
               <<<<fzt>>, <<fx>>>>, <<<<fzc>>>>, <<<<fII>>>>, <<<<fIq>>, <<fx>>>>,
-              <<<<fqr>>>>, <<<<fIrq>>, <<fq>>>> >>
+              <<<<fqr>>>>, <<<<fIrq>>, <<fq>>>>,
+              <<<<fkw>>>>, <<<<fIkw>>>> >>
 FormulaText == << "0 + x", "0 + x + z", "0 + I(x)", "0 + {x + z}", "0 + x + z:x", "0 + I(x) + z", "0 + `x y` + `x y`:x", "0 + I + x",
                  "0 + {z.T.T} + x", "0 + {z.T.copy()}", "0 + {I(x) + I(z)}", "0 + I(`x y`) + x",
-                 "0 + {`x y` - `x-y`}", "0 + I(`x-y` - `x y`) + `x y`" >>
+                 "0 + {`x y` - `x-y`}", "0 + I(`x-y` - `x y`) + `x y`",
+                 "0 + np.clip(x, a_min=z, a_max=None)", "0 + I(np.clip(a=`x y`, a_min=x, a_max=None))" >>
 
 RECURSIVE FlatE(_, _)
 FlatE(G(_), s) == IF s = <<>> THEN <<>> ELSE G(Head(s)) \o FlatE(G, Tail(s))
@@ -61,6 +69,10 @@ FactorsOf(form) == FlatE(LAMBDA t : t, form)
 ReadsOf(form) == FlatE(LAMBDA f : f.reads, FactorsOf(form))
 \* the formulas that read the second quoted name: their patterns range over CollidingNames, the others over Names
 ReadsR(form) == \E i \in DOMAIN ReadsOf(form) : ReadsOf(form)[i].name = "r"
+
+\* the formulas with keyword arguments: their patterns range over the names they read (presence of the others changes nothing)
+ReadsKw(form) == \E i \in DOMAIN ReadsOf(form) : ReadsOf(form)[i].name = "np"
+KwNames(form) == {ReadsOf(form)[i].name : i \in DOMAIN ReadsOf(form)} \cap Names
 
 \* Formula.required_variables: value-role names that are not names of the transforms namespace
 RequiredBefore(form) ==
@@ -71,7 +83,7 @@ RequiredBefore(form) ==
 FactorOK(pat, f) == \A i \in DOMAIN f.reads :
    /\ Layer(pat, f.reads[i].name) # "MISSING"
    /\ (f.reads[i].role = "value" => Layer(pat, f.reads[i].name) # "transforms" /\ (f.reads[i].name = "I" => Layer(pat, "I") = "data"))
-   /\ (f.reads[i].role = "callable" => CallableOK(pat))
+   /\ (f.reads[i].role = "callable" /\ f.reads[i].name = "I" => CallableOK(pat))      \* (np is always the module of the transforms layer)
 Succeeds(pat, form) == \A i \in DOMAIN FactorsOf(form) : FactorOK(pat, FactorsOf(form)[i])
 
 FactorVal(pat, f) ==
@@ -86,6 +98,8 @@ FactorVal(pat, f) ==
     [] f.e = "x + z" -> [i \in 1..3 |-> ValueOf(pat, "x")[i] + ValueOf(pat, "z")[i]]
     [] f.e = "`x y` - `x-y`" -> [i \in 1..3 |-> ValueOf(pat, "q")[i] - ValueOf(pat, "r")[i]]
     [] f.e = "I(`x-y` - `x y`)" -> ApplyI(pat, [i \in 1..3 |-> ValueOf(pat, "r")[i] - ValueOf(pat, "q")[i]])
+    [] f.e = "np.clip(x, a_min=z, a_max=None)" -> Max3(ValueOf(pat, "x"), ValueOf(pat, "z"))
+    [] f.e = "I(np.clip(a=`x y`, a_min=x, a_max=None))" -> ApplyI(pat, Max3(ValueOf(pat, "q"), ValueOf(pat, "x")))
 RECURSIVE TermVal(_, _)
 TermVal(pat, t) == IF t = <<>> THEN <<1, 1, 1>> ELSE LET h == FactorVal(pat, Head(t)) r == TermVal(pat, Tail(t)) IN [i \in 1..3 |-> h[i] * r[i]]
 RECURSIVE JoinE(_)
